@@ -1,6 +1,7 @@
 package rules
 
 import (
+	"fmt"
 	"go/token"
 	"go/types"
 	"sort"
@@ -31,6 +32,82 @@ func runC10(p *core.Prog, r *core.Report) {
 	c10R7(p, r)
 	structKeyRule(p, r, "C10.R8")
 	c10R9(p, r)
+	// a filtered query leaves the listing it was made from (the cached answer) intact (shared with C03.R6)
+	c03R6(p, r, "C10.R10")
+	c10R11(p, r)
+}
+
+// c10R11: every query is answered by asking. The client's ReferrerList hands back what the scheme's
+// ReferrerList returned to this very call (possibly passed through module functions that take the
+// listing), never a listing kept in a field or a table from an earlier or concurrent call: an answer
+// computed before a push completed must not be given to a query that started after it.
+func c10R11(p *core.Prog, r *core.Report) {
+	const rule = "C10.R11"
+	r.Rule(rule, "every query asks: each return of the client's ReferrerList that carries a listing hands back the result of a scheme ReferrerList call made by this invocation (directly or through module functions that are given that result), not a listing loaded from a field or a table", 1)
+	fn := p.Method(".", "RegClient", "ReferrerList")
+	if fn == nil {
+		r.MissingAnchor(rule, "regclient.(*RegClient).ReferrerList")
+		return
+	}
+	isSchemeCall := func(c *ssa.Call) bool {
+		cc := c.Common()
+		return cc.IsInvoke() && cc.Method.Name() == "ReferrerList"
+	}
+	rlT := fn.Signature.Results().At(0).Type()
+	through := func(c *ssa.Call) []int {
+		if isSchemeCall(c) {
+			return nil
+		}
+		g := c.Call.StaticCallee()
+		if g == nil || !p.InModule(g) {
+			return nil
+		}
+		var idx []int
+		for i, a := range c.Call.Args {
+			t := a.Type()
+			if pt, ok := t.(*types.Pointer); ok {
+				t = pt.Elem()
+			}
+			if types.Identical(t, rlT) {
+				idx = append(idx, i)
+			}
+		}
+		return idx
+	}
+	lab := labeler{}
+	n := 0
+	for _, ret := range core.Returns(fn) {
+		if failureReturn(fn, ret) {
+			continue
+		}
+		v := core.ReturnOperand(ret, 0)
+		if v == nil {
+			continue
+		}
+		// a composite literal of the zero listing next to an error is a failure return as well
+		if _, isConst := v.(*ssa.Const); isConst {
+			continue
+		}
+		n++
+		ok, why := true, ""
+		for _, o := range core.Origins(v, core.SliceOpts{Through: through}) {
+			switch {
+			case o.Kind == core.OCall && o.Call != nil && isSchemeCall(o.Call):
+			case o.Kind == core.OAlloc:
+				// a zero value built here (returned next to an error)
+			default:
+				ok, why = false, fmt.Sprintf("origin %v", o.Val)
+				if o.Val != nil && o.Val.Pos().IsValid() {
+					why = "a value from " + p.Pos(o.Val.Pos())
+				}
+			}
+		}
+		r.Check(ok, rule, p.FuncName(fn), lab.next("returned listing"), p.Pos(ret.Pos()),
+			"the listing returned is not (only) the answer of a scheme ReferrerList call made by this invocation ("+why+"): a query that starts after a referrer was pushed or deleted can be given an answer computed before")
+	}
+	if n == 0 {
+		r.Undecided(rule, p.FuncName(fn), "returned listing", p.Pos(fn.Pos()), "no return that carries a listing found")
+	}
 }
 
 // c10R9: the filter options of a referrers listing compose. An option that is given one criterion
